@@ -27,8 +27,83 @@ import YtkProofs.Patch
 import YtkProofs.HeapPatch
 import YtkProofs.HeapPatchAbs
 import YtkProofs.Decisions
+import YtkProofs.Decisions2
 
 namespace Ytk.C09
+
+/-! ## decision tables regenerated from the source (extract/tables2.go) -/
+section DecisionTables2
+open Ytk.TableT Ytk.Ptr Ytk.Patch
+
+/-- the leading guards the source gives a handler function (regenerated `patchRequires`, first batch) -/
+def handlerGuardsG (handler : String) : List Guard := (Generated.patchRequires.lookup handler).getD []
+
+/-- the fields the regenerated table gives the operation object built for a modification type -/
+def opFieldsG (modType : String) : List (String × String) := (Generated.mod2opFields.lookup modType).getD []
+
+/-- (i) The `switch mod.Type` of xform.DiffMod2PatchOp as regenerated from xform/diff2patch.go IS the
+    conversion table of the model (`Xform.mod2op`, YtkModel/Decisions2.lean): same modification types,
+    same patch operation for each, nil for anything else, the same fields of the operation object — Op,
+    Path built from the modification's path, Value (the modification's value as a leaf) exactly where the
+    model carries one, never From; the model's conversion equals the function RUN FROM the regenerated
+    case table and field table (`mod2opBy`), for all modifications; and every operation object the
+    model's conversion builds is dispatched by the model's patch.Do and passes the handler's leading
+    checks. -/
+theorem mod2op_table_matches_model :
+    Generated.mod2opTable = Xform.mod2opRowsM ∧
+    pairs Generated.mod2opTable = Xform.mod2opTableM ∧
+    Generated.mod2opDefault = "nil" ∧
+    Generated.mod2opFields = Xform.mod2opFieldsM ∧
+    (∀ (ptr : String → Path) (m : Mod),
+      Xform.mod2opBy Generated.mod2opTable Generated.mod2opFields ptr m = some (Xform.mod2op ptr m)) ∧
+    (∀ (ptr : String → Path) (m : Mod),
+      (Xform.mod2op ptr m).op = Xform.opOfMod m.ty ∧ (Xform.mod2op ptr m).path = some (ptr m.path) ∧
+      (Xform.mod2op ptr m).frm = none ∧
+      (Xform.mod2op ptr m).value = if Xform.carriesValue m.ty then some (.leaf m.value) else none) ∧
+    (∀ (ptr : String → Path) (m : Mod),
+      ∃ h, handlerOf (Xform.mod2op ptr m).op = some h ∧ (Xform.mod2op ptr m).path.isSome = true ∧
+        (h.needsValue = true → (Xform.mod2op ptr m).value.isSome = true) ∧ h.needsFrom = false) := by
+  have h1 : Generated.mod2opTable = Xform.mod2opRowsM := by decide +kernel
+  have h2 : Generated.mod2opFields = Xform.mod2opFieldsM := by decide +kernel
+  refine ⟨h1, by decide +kernel, by decide +kernel, h2, ?_, fun _ _ => ⟨rfl, rfl, rfl, rfl⟩,
+    Xform.mod2op_wellformed⟩
+  intro ptr m
+  rw [h1, h2]
+  exact Xform.mod2op_eq_table ptr m
+
+/-- (ii) The rule on the regenerated tables (RFC 6902 section 4 + what a diff modification means): an
+    Add becomes `add`, a Change `replace`, a Delete `remove`, anything else no operation; each of these
+    is one of the operations patch.Do dispatches (regenerated `patchDispatch`); the object carries a
+    `value` — the modification's value as a leaf — exactly when the handler it is dispatched to starts
+    by requiring one (regenerated `patchRequires`), never needs and never sets `from`, always sets the
+    path from the modification's path; and the constants written in the source have the values the
+    constants table gives them. -/
+theorem mod2op_table_rule :
+    pairs Generated.mod2opTable = [("Add", "add"), ("Change", "replace"), ("Delete", "remove")] ∧
+    Generated.mod2opDefault = "nil" ∧
+    (∀ r ∈ Generated.mod2opTable,
+      r.target ∈ keys Generated.patchDispatch ∧
+      (("Value" ∈ (opFieldsG r.key).map (·.1)) ↔
+        ⟨"arg0.Value", "ErrOoValueMissing"⟩ ∈ handlerGuardsG (lookupD Generated.patchDispatch "" r.target)) ∧
+      (opFieldsG r.key).lookup "Value" ∈ [none, some "dom.LeafNode(arg0.Value)"] ∧
+      ⟨"arg0.From", "ErrOoFromMissing"⟩ ∉ handlerGuardsG (lookupD Generated.patchDispatch "" r.target) ∧
+      "From" ∉ (opFieldsG r.key).map (·.1) ∧
+      (opFieldsG r.key).lookup "Path" = some "PointerFromPropPathString(arg0.Path)" ∧
+      ((opFieldsG r.key).lookup "Op").bind Generated.const? = some r.target ∧
+      Generated.const? r.const = some r.key) := by
+  decide +kernel
+
+/-- (iii) the tables are not empty and their keys are distinct: three modification types, three
+    different operations, one field list per type -/
+theorem nonvacuous_mod2op_tables :
+    Generated.mod2opTable.length = 3 ∧ (keys Generated.mod2opTable).Nodup ∧
+    (Generated.mod2opTable.map (·.target)).Nodup ∧
+    Generated.mod2opFields.map (·.1) = keys Generated.mod2opTable ∧
+    (∀ f ∈ Generated.mod2opFields, (f.2.map (·.1)).Nodup) := by
+  decide +kernel
+
+end DecisionTables2
+
 open Ytk.Ptr Ytk.Patch
 
 /-! ## decision tables regenerated from the source (extract/tables.go) -/
@@ -292,7 +367,6 @@ theorem source_constants :
     Generated.const? "patch.OpAdd" = some "add" ∧ Generated.const? "patch.OpRemove" = some "remove" ∧
     Generated.const? "patch.OpReplace" = some "replace" ∧ Generated.const? "patch.OpMove" = some "move" ∧
     Generated.const? "patch.OpCopy" = some "copy" ∧ Generated.const? "patch.OpTest" = some "test" := by decide
-
 
 /-! ## Pointer level: patch on the heap model (YtkModel/HeapPatch.lean)
 
